@@ -62,7 +62,7 @@ func c11Gen(t *rapid.T) c11Case {
 		c.Ops = append(c.Ops, c11Op{K: "issue", I: rapid.IntRange(0, c.Issuers-1).Draw(t, "i"), M: rapid.SampledFrom([]string{"ldp", "ldp", "jwt"}).Draw(t, "fmt")})
 	}
 	kinds := []string{"issue", "issue", "issue", "entry", "jump", "revoke", "revoke", "revoke", "revoke", "serve", "serve",
-		"verifyA", "verifyA", "verifyB", "verifyB", "verifyB", "verifyB", "verifyB", "verifyB", "ageIssuer", "issueForged", "sc-forged-refresh", "sc-rollover", "fillpages", "race", "race", "race"}
+		"verifyA", "verifyA", "verifyB", "verifyB", "verifyB", "verifyB", "verifyB", "verifyB", "ageIssuer", "issueForged", "sc-forged-refresh", "sc-rollover", "fillpages", "race", "race", "race", "fault", "sc-fault-revoke", "sc-fault-revoke"}
 	forged := []string{"http500", "neterr", "notjson", "unsigned", "zerobits", "zerobits", "allbits", "wrongsubject", "jsonmut"}
 	mut := func(t *rapid.T, op *c11Op) {
 		if op.M == "jsonmut" {
@@ -81,6 +81,12 @@ func c11Gen(t *rapid.T) c11Case {
 			bad := c11Op{K: "verifyB", C: sel, M: rapid.SampledFrom(forged).Draw(t, "m"), A: rapid.SampledFrom([]string{"old", "expired"}).Draw(t, "age")}
 			mut(t, &bad)
 			return []c11Op{{K: "revoke", C: sel}, {K: "verifyB", C: sel, M: "honest", A: "old"}, bad}
+		case "sc-fault-revoke":
+			// the signer fails (once, or transiently for two calls) while a revocation is being recorded; look at the
+			// credential from both nodes, retry, look again
+			sel := rapid.Uint32().Draw(t, "c")
+			return []c11Op{{K: "fault", N: 0, C: uint32(rapid.IntRange(1, 2).Draw(t, "count"))}, {K: "revoke", C: sel}, {K: "verifyA", C: sel},
+				{K: "verifyB", C: sel, M: "honest", A: "old"}, {K: "revoke", C: sel}, {K: "revoke", C: sel}, {K: "verifyA", C: sel}, {K: "verifyB", C: sel, M: "honest", A: "old"}}
 		case "sc-rollover":
 			// fill the issuer's page, issue across the page end, revoke the newest credential and look at it from afar
 			i := rapid.IntRange(0, c.Issuers-1).Draw(t, "i")
@@ -101,6 +107,9 @@ func c11Gen(t *rapid.T) c11Case {
 		case "fillpages":
 			op.I = rapid.IntRange(0, c.Issuers-1).Draw(t, "i")
 			op.N = rapid.SampledFrom([]int{1, 2, 3, 9, 10, 11}).Draw(t, "pages") // page numbers with two digits included
+		case "fault":
+			op.N = rapid.IntRange(0, 2).Draw(t, "skip")          // Sign calls of the node that still pass
+			op.C = uint32(rapid.IntRange(1, 3).Draw(t, "count")) // Sign calls that fail after that
 		case "race":
 			// harness-owned interleaving: the inner op runs to completion at the outer op's pre-transaction callback
 			op.C = rapid.Uint32().Draw(t, "c")
@@ -438,8 +447,15 @@ func (r *c11Run) opIssue(op c11Op) {
 	if op.M == "jwt" {
 		opts.Format = vc.JWTCredentialProofFormat
 	}
+	mark := f.fires()
 	cred, err := f.iss.Issue(f.ctx, tmpl, opts)
 	if err != nil {
+		if f.fires() > mark {
+			// the injected signer failure hit the page creation inside Entry(): nothing may be left behind
+			x.Class("fault:issue-failed")
+			r.checkPages(k, "issue")
+			return
+		}
 		x.Fatalf("Issue(%d,%s): %v", k, op.M, err)
 	}
 	x.Class("issue:" + op.M)
@@ -462,8 +478,14 @@ func (r *c11Run) opIssue(op c11Op) {
 func (r *c11Run) opEntry(op c11Op) {
 	k := op.I % r.c.Issuers
 	for i := 0; i < op.N; i++ {
+		mark := r.f.fires()
 		e, err := r.f.slA.Entry(r.f.ctx, r.f.dids[k], revocation.StatusPurposeRevocation)
 		if err != nil {
+			if r.f.fires() > mark {
+				r.x.Class("fault:entry-failed")
+				r.checkPages(k, "entry")
+				continue
+			}
 			r.x.Fatalf("Entry(%d): %v", k, err)
 		}
 		if _, _, ok := r.checkEntry(k, *e, "entry"); !ok {
@@ -471,6 +493,22 @@ func (r *c11Run) opEntry(op c11Op) {
 		}
 	}
 	r.x.Class("entry-unused")
+}
+
+// checkPages: after an Entry() that failed because of an injected fault, the issuer has exactly the pages it had before
+// (no half-created page that would be served unsigned or swallow slots).
+func (r *c11Run) checkPages(k int, how string) {
+	var n int64
+	r.x.NoErr(r.f.dbA.Raw("SELECT count(*) FROM status_list WHERE issuer = ?", r.f.dids[k].String()).Scan(&n).Error, "count pages")
+	want := 0
+	for _, u := range r.urls {
+		if r.lists[u].issuer == k {
+			want++
+		}
+	}
+	if int(n) != want {
+		r.x.Violate("fault:page-left-behind:"+how, "issuer %d has %d pages in the database after a failed Entry(), %d were handed out", k, n, want)
+	}
 }
 
 // opJump moves the issuer's current page forward so that op.N slots are left (roll-over without 131072 calls).
@@ -556,7 +594,22 @@ func (r *c11Run) opRevoke(op c11Op) bool {
 // doRevoke revokes c through the issuer. The expectation is evaluated after the call returned, because an armed hook may
 // have revoked the same credential while the call was between its checks and its transaction.
 func (r *c11Run) doRevoke(c *c11Cred) bool {
+	mark := r.f.fires()
 	_, err := r.f.iss.Revoke(r.f.ctx, *c.vc.ID)
+	if err != nil && r.f.fires() > mark && c.revocable && !r.lists[c.url].bits[c.idx] {
+		// Revoke reported the injected signer failure: then nothing happened (no revocation row, no bit; the served-list
+		// and verify oracles keep judging against "not revoked") and a later retry must be able to succeed
+		r.x.Class("fault:revoke-failed")
+		var n int64
+		r.x.NoErr(r.f.dbA.Raw("SELECT count(*) FROM status_list_entry WHERE status_list_credential = ? AND status_list_index = ?", c.url, c.idx).Scan(&n).Error, "count revocation rows")
+		if n != 0 {
+			r.x.Violate("fault:revocation-row-after-failed-revoke", "Revoke of %s failed (%v) but left its revocation row behind: a retry would answer 'already revoked' while the list never gets the bit", c.vc.ID, err)
+		}
+		return false
+	}
+	if err == nil && r.f.fires() > mark {
+		r.x.Class("fault:revoke-ok-despite-signer-failure")
+	}
 	if !c.revocable {
 		if err == nil {
 			r.x.Violate("revoke-unrevocable-ok", "Revoke of %s (no own status entry) reported success", c.vc.ID)
@@ -587,8 +640,13 @@ func (r *c11Run) doRevoke(c *c11Cred) bool {
 // serveList fetches (issuer, page) like GET /statuslist/{did}/{page} and applies the served-list oracles.
 func (r *c11Run) serveList(l *c11List, how string) {
 	t0 := time.Now()
+	mark := r.f.fires()
 	cred, err := r.f.iss.StatusList(r.f.ctx, r.f.dids[l.issuer], l.page)
 	if err != nil {
+		if r.f.fires() > mark {
+			r.x.Class("fault:renewal-failed")
+			return
+		}
 		r.x.Violate("serve-error", "StatusList(%d, page %d) [%s]: %v", l.issuer, l.page, how, err)
 		return
 	}
@@ -722,7 +780,12 @@ func (r *c11Run) opServe(op c11Op) {
 	}
 	url := r.f.slA.C11URL(r.f.dids[k], page)
 	t0 := time.Now()
+	mark := r.f.fires()
 	cred, err := r.f.iss.StatusList(r.f.ctx, r.f.dids[k], page)
+	if err != nil && r.f.fires() > mark {
+		r.x.Class("fault:renewal-failed")
+		return
+	}
 	if r.lists[url] == nil {
 		if err == nil {
 			r.x.Violate("served-nonexistent-page", "issuer %d page %d was never created but is served", k, page)
@@ -1055,6 +1118,9 @@ func c11RunCase(t *testing.T) func(x *h.Ctx, c c11Case) {
 				r.opJump(op)
 			case "fillpages":
 				r.opFillPages(op)
+			case "fault":
+				f.setFault(op.N, int(op.C%4))
+				x.Classf("fault:armed:skip=%d:count=%d", op.N, op.C%4)
 			case "race":
 				if r.opRace(op) {
 					revoked = true
@@ -1084,7 +1150,8 @@ func c11RunCase(t *testing.T) func(x *h.Ctx, c c11Case) {
 				return
 			}
 		}
-		// closing sweep: every list of the issuer node is served correctly, whatever happened before
+		// closing sweep: every list of the issuer node is served correctly, whatever happened before (faults over)
+		f.setFault(0, 0)
 		urls := append([]string(nil), r.urls...)
 		sort.Strings(urls)
 		for _, u := range urls {
